@@ -73,3 +73,25 @@ Print Assumptions C08_root_values_ab_eq.
 From ChessV Require ClockKey.
 Check ClockKey.key_without_clock_refuted.
 Print Assumptions ClockKey.key_without_clock_refuted.
+
+(* ---- the cache-free statement on the WIDE domain (ReachWide.v) ---- *)
+From ChessV Require ReachWide.
+
+Theorem C08_wide_score_is_minimax : forall T rook_t bishop_t depth b v m b1,
+  1 <= depth -> ReachWide.SoundW T rook_t bishop_t (N.to_nat depth) b ->
+  search T rook_t bishop_t depth b = SOk (v, m, b1) ->
+  Search.mm T rook_t bishop_t (N.to_nat depth) b (maximize (turn b)) = Ok v
+  /\ (exists b2, apply_move T m b = Ok b2 /\
+        Search.mm T rook_t bishop_t (Nat.pred (N.to_nat depth)) (toggle_turn b2)
+                  (negb (maximize (turn b))) = Ok v)
+  /\ (exists rv, Search.root_values T rook_t bishop_t (N.to_nat depth) b = Ok rv /\ In (m, v) rv /\
+        forall m' v', In (m', v') rv -> if maximize (turn b) then (v' <= v)%Z else (v <= v')%Z).
+Proof. exact ReachWide.C08_wide. Qed.
+
+Theorem C08_root_values_ab_eq_wide : forall T rook_t bishop_t d b,
+  ReachWide.SoundW T rook_t bishop_t (S d) b ->
+  Search.root_values_ab T rook_t bishop_t (S d) b = Search.root_values T rook_t bishop_t (S d) b.
+Proof. exact ReachWide.root_values_ab_eq_wide. Qed.
+
+Print Assumptions C08_wide_score_is_minimax.
+Print Assumptions C08_root_values_ab_eq_wide.
